@@ -259,14 +259,14 @@ func main() {
 	vkit.Main(&vkit.Spec{
 		Property: "C05", Level: "model_checking",
 		Rule: "family 1: one scenario = executor x submitters x jobs x MustExecute/panic/Close variant; every interleaving of the real Conn.Execute/MustExecute/execute/Close code within the preemption bound is executed; a scenario is non-trivial when some job was run by a drainer other than its submitter's own call (queue hand-over exercised). " +
-			"family 2 (names 'engine ...'): one scenario = epoll mode (LT, ET; thorough: also one-shot) x server executor (goroutine per call, default task pool) x connection kind (HTTP with 1-2 pipelined requests; WebSocket with 1-2 messages after a real Upgrade) x ending (peer close, peer RST, Close from another thread, Close from inside OnMessage, 'Connection: close' request) x synchronisation (closer acts at once / waits for the first handler to start / the first handler blocks until the closer has acted) on the real nbhttp engine over the simulated kernel, handlers and callbacks with scheduling points between their start and end; every interleaving of peer, poller, close notification thread, executor threads and closer within the preemption bound; a scenario is non-trivial when in some execution the close job was queued behind a handler / OnMessage that was running or still queued (counter engine_close_job_queued_behind_work, read off Conn.ExecuteLen inside the engine's OnClose callback) and handlers ran",
+			"family 2 (names 'engine ...'): one scenario = epoll mode (LT, ET; thorough: also one-shot) x server executor (goroutine per call, default task pool) x connection kind (HTTP with 1-2 pipelined requests; WebSocket with 1-2 messages after a real Upgrade; WebSocket control scripts {text ping, text pong, ping text, text ping text} in one burst or one burst per frame, with logging ping / pong handlers - the ping handler writes the Pong, the message handler a reply) x ending (peer close, peer RST, Close from another thread, Close from inside OnMessage, 'Connection: close' request) x synchronisation (closer acts at once / waits for the first handler to start / the first handler blocks until the closer has acted) on the real nbhttp engine over the simulated kernel, handlers and callbacks with scheduling points between their start and end; every interleaving of peer, poller, close notification thread, executor threads and closer within the preemption bound; a scenario is non-trivial when in some execution the close job was queued behind a handler / OnMessage that was running or still queued (counter engine_close_job_queued_behind_work, read off Conn.ExecuteLen inside the engine's OnClose callback) and handlers ran; a control script is non-trivial when a ping / pong callback was queued behind other work of the connection (engine_control_queued_behind_work, ExecuteLen inside the callback) and messages ran",
 		Assumptions: []string{
 			"sequentially consistent interleavings at lock/atomic/channel/syscall operations (no weak-memory effects)",
 			"executors explored: inline, goroutine-per-call, real taskpool.New(3,1) (family 1); goroutine-per-call and nbhttp's default task pool (family 2: the inline executor self-deadlocks the poller on this path, a known finding recorded under C10/C18)",
-			"family 2 judges, per connection: no two of {HTTP handler, OnMessage, WebSocket OnClose, engine OnClose callback} overlap; the engine OnClose callback is delivered exactly once for a connection that ended, after every handler / OnMessage that started before it has returned, and none starts after it; WebSocket OnClose at most once, once if the upgrade succeeded, not before a queued OnMessage. The relative ORDER of the WebSocket OnClose and the engine OnClose callback (WebSocket first in this tree, both inside one close job) is not promised by the statement: recorded as an outcome class, not judged",
+			"family 2 judges, per connection: no two of {HTTP handler, OnMessage, WebSocket OnClose, engine OnClose callback} overlap; the engine OnClose callback is delivered exactly once for a connection that ended, after every handler / OnMessage that started before it has returned, and none starts after it; WebSocket OnClose at most once, once if the upgrade succeeded, not before a queued OnMessage; ping / pong handlers are callbacks like OnMessage (no overlap, before the close callbacks), WebSocket callbacks start in wire order, and the replies / Pongs they write appear on the wire in the order of the frames they answer. The relative ORDER of the WebSocket OnClose and the engine OnClose callback (WebSocket first in this tree, both inside one close job) is not promised by the statement: recorded as an outcome class, not judged",
 			"family 2 covers IOModNonBlocking, plain text (the *nbio.Conn path, the only one whose close notification goes through MustExecute); blocking-mode connections tear down in their own read loop and are out of reach of the cooperative scheduler",
 		},
 		UsesSimulatedKernel: true,
-		Build:               build, QuickBudget: 60 * time.Second, ThoroughBudget: 15 * time.Minute, MinNonTrivial: 40,
+		Build:               build, QuickBudget: 60 * time.Second, ThoroughBudget: 15 * time.Minute, MinNonTrivial: 60,
 	})
 }
